@@ -7,6 +7,20 @@ template<class T> struct ExpT;
 template<> struct ExpT<float> { typedef std::int32_t type; };
 template<> struct ExpT<double> { typedef std::int64_t type; };
 
+template<class V> void sweep(const char*, std::false_type) {}
+template<class V> void sweep(const char* type, std::true_type) {
+    typedef typename V::scalar T;
+    typedef typename ExpT<T>::type IT;
+    if (!opt().thorough) return;
+    BoolEq beq; IntEq<IT> ieq;
+    fsweep32<V, IT>("C13", type, "fpclassify/all2^32", [](V a) { return avel::to_array(avel::fpclassify(a)); }, [](T a, IT& o) { volatile T x = a; o = (IT)std::fpclassify(x); return true; }, ieq);
+    fsweep32<V, bool>("C13", type, "isnan/all2^32", [](V a) { return observe_mask<V>(avel::isnan(a)); }, [](T a, bool& o) { volatile T x = a; o = std::isnan(x); return true; }, beq);
+    fsweep32<V, bool>("C13", type, "isinf/all2^32", [](V a) { return observe_mask<V>(avel::isinf(a)); }, [](T a, bool& o) { volatile T x = a; o = std::isinf(x); return true; }, beq);
+    fsweep32<V, bool>("C13", type, "isfinite/all2^32", [](V a) { return observe_mask<V>(avel::isfinite(a)); }, [](T a, bool& o) { volatile T x = a; o = std::isfinite(x); return true; }, beq);
+    fsweep32<V, bool>("C13", type, "isnormal/all2^32", [](V a) { return observe_mask<V>(avel::isnormal(a)); }, [](T a, bool& o) { volatile T x = a; o = std::isnormal(x); return true; }, beq);
+    fsweep32<V, bool>("C13", type, "signbit/all2^32", [](V a) { return observe_mask<V>(avel::signbit(a)); }, [](T a, bool& o) { o = (fbits(a) >> 31) != 0; return true; }, beq);
+}
+
 template<class V>
 void run(const char* type) {
     typedef typename V::scalar T;
@@ -27,6 +41,7 @@ void run(const char* type) {
     fdrive_binary<V, bool>("C13", type, "isless", pairs, [](V a, V b) { return observe_mask<V>(avel::isless(a, b)); }, [](T a, T b, bool& o) { volatile T x = a, y = b; o = std::isless(x, y); return true; }, beq);
     fdrive_binary<V, bool>("C13", type, "islessequal", pairs, [](V a, V b) { return observe_mask<V>(avel::islessequal(a, b)); }, [](T a, T b, bool& o) { volatile T x = a, y = b; o = std::islessequal(x, y); return true; }, beq);
     fdrive_binary<V, bool>("C13", type, "islessgreater", pairs, [](V a, V b) { return observe_mask<V>(avel::islessgreater(a, b)); }, [](T a, T b, bool& o) { volatile T x = a, y = b; o = std::islessgreater(x, y); return true; }, beq);
+    sweep<V>(type, SweepThis<V>());
     fdrive_binary<V, bool>("C13", type, "isunordered", pairs, [](V a, V b) { return observe_mask<V>(avel::isunordered(a, b)); }, [](T a, T b, bool& o) { volatile T x = a, y = b; o = std::isunordered(x, y); return true; }, beq);
 }
 
